@@ -99,16 +99,19 @@ def extract(repo):
     # ---- ReadReal
     rr = _strip(_body(rf, r"int\s+ReadReal\(\s*SDAI_Real\s*&\s*val,\s*istream\s*&\s*in,[^)]*\)\s*\{", "ReadReal"))
     m = re.search(r"char\s+buf\s*\[\s*(\d+)\s*\]\s*;", rr)
-    if not m:
+    if m:
+        real_buf = int(m.group(1))          # fixed buffer: the model has an explicit overflow outcome
+    elif re.search(r"std::string\s+buf\s*;", rr):
+        real_buf = 0                         # growing buffer: no overflow
+    else:
         raise ValueError("ReadReal: buffer declaration not found")
-    real_buf = int(m.group(1))
     m = re.search(r"if\s*\(\s*!\s*in2\.fail\(\)\s*\)\s*\{\s*valAssigned\s*=\s*1;\s*val\s*=\s*d;\s*err->GreaterSeverity\(\s*e\.severity\(\)\s*\);\s*err->AppendToDetailMsg\(\s*e\.DetailMsg\(\)\s*\);\s*\}\s*else\s*\{\s*val\s*=\s*S_REAL_NULL;(.*?)\}\s*CheckRemainingInput\(\s*in,\s*err,\s*\"Real\",\s*tokenList\s*\)", rr, re.S)
     if not m:
         raise ValueError("ReadReal: conversion / assignment shape changed")
     tail = m.group(1)
     if tail.strip() == "":
         real_rep = False
-    elif re.fullmatch(r"\s*if\s*\(\s*i\s*>\s*0\s*\)\s*\{[^{}]*err->GreaterSeverity\(\s*SEVERITY_WARNING\s*\)\s*;[^{}]*\}\s*", tail, re.S):
+    elif re.fullmatch(r"\s*if\s*\(\s*(?:i\s*>\s*0|!\s*buf\.empty\(\))\s*\)\s*\{[^{}]*err->GreaterSeverity\(\s*SEVERITY_WARNING\s*\)\s*;[^{}]*\}\s*", tail, re.S):
         real_rep = True
     else:
         raise ValueError(f"ReadReal: unknown code in the failing branch: {tail.strip()[:120]!r}")
@@ -117,7 +120,7 @@ def extract(repo):
                       (r"if\s*\(\s*!\s*isdigit\(\s*c\s*\)\s*\)\s*\{\s*e\.severity\(\s*SEVERITY_WARNING\s*\)", "initial digit"),
                       (r"if\s*\(\s*c\s*==\s*'\.'\s*\)", "decimal point"),
                       (r"if\s*\(\s*\(\s*c\s*==\s*'e'\s*\)\s*\|\|\s*\(\s*c\s*==\s*'E'\s*\)\s*\)", "exponent letter"),
-                      (r"istringstream\s+in2\(\s*\(\s*char\s*\*\s*\)\s*buf\s*\)", "second stream")]:
+                      (r"istringstream\s+in2\(\s*(?:\(\s*char\s*\*\s*\)\s*)?buf\s*\)", "second stream")]:
         if not re.search(pat, rr):
             raise ValueError(f"ReadReal: {what} test changed")
 
@@ -165,6 +168,29 @@ def extract(repo):
         bin_rej = True
     else:
         raise ValueError(f"ReadBinary: unknown code after the assignment: {tail.strip()[:120]!r}")
+
+    # ---- CheckRemainingInput: what is skipped between the value and its delimiter
+    st = rd("src/clutils/Str.cc")
+    cri = _strip(_body(st, r"Severity\s+CheckRemainingInput\(\s*istream\s*&\s*in,\s*ErrorDescriptor\s*\*\s*err,\s*const\s+char\s*\*\s*typeName", "CheckRemainingInput"))
+    m = re.search(r"in\.clear\(\);\s*(.*?)\s*if\(\s*in\.eof\(\)\s*\)", cri, re.S)
+    if not m:
+        raise ValueError("CheckRemainingInput: clear / skip / eof test changed")
+    skip = m.group(1).strip()
+    if re.fullmatch(r"in\s*>>\s*ws\s*;", skip):
+        cri_comments = False
+    elif re.fullmatch(r"SkipTokenSeparators\(\s*in\s*\)\s*;", skip):
+        sk = _strip(_body(st, r"static\s+void\s+SkipTokenSeparators\(\s*istream\s*&\s*in\s*\)", "SkipTokenSeparators"))
+        for pat, what in [(r"in\s*>>\s*ws\s*;\s*while\(\s*in\.good\(\)\s*&&\s*in\.peek\(\)\s*==\s*'/'\s*\)", "loop head"),
+                          (r"if\(\s*in\.peek\(\)\s*!=\s*'\*'\s*\)\s*\{\s*in\.clear\(\);\s*in\.putback\(\s*'/'\s*\);\s*return;", "lone slash"),
+                          (r"while\(\s*in\.get\(\s*c\s*\)\s*&&\s*!\(\s*prev\s*==\s*'\*'\s*&&\s*c\s*==\s*'/'\s*\)\s*\)\s*\{\s*prev\s*=\s*c;\s*\}\s*in\s*>>\s*ws\s*;", "comment body")]:
+            if not re.search(pat, sk):
+                raise ValueError(f"SkipTokenSeparators: {what} changed")
+        cri_comments = True
+    else:
+        raise ValueError(f"CheckRemainingInput: unknown separator skipping: {skip[:100]!r}")
+    if not re.search(r"for\(\s*in\.get\(\s*c\s*\);\s*in\s*&&\s*!strchr\(\s*delimiterList,\s*c\s*\);\s*in\.get\(\s*c\s*\)\s*\)", cri) \
+            and not re.search(r"strchr\(\s*delimiterList,\s*c\s*\)", cri):
+        raise ValueError("CheckRemainingInput: delimiter test changed")
 
     # ---- STEPattribute::STEPread
     sr = _strip(_body(sa, r"Severity\s+STEPattribute::STEPread\(\s*istream", "STEPattribute::STEPread"))
@@ -251,7 +277,7 @@ namespace StepModel.Generated
 def lexCfg : StepModel.P21.LexCfg :=
   {{ intReportsFail := {_b(int_rep)}, realReportsFail := {_b(real_rep)}, numberReportsFail := {_b(num_rep)},
     logicalRejectsUnset := {_b(log_rej)}, binaryRejectsEmpty := {_b(bin_rej)}, dollarKeepsError := {_b(dollar_keeps)},
-    asStrUsesWriteReal := {_b(asstr_wr)}, realBuf := {real_buf}, realPrecision := {prec} }}
+    asStrUsesWriteReal := {_b(asstr_wr)}, criSkipsComments := {_b(cri_comments)}, realBuf := {real_buf}, realPrecision := {prec} }}
 
 /-- `SDAI_LOGICAL::element_at(0..3)` and `SDAI_BOOLEAN::element_at(0..1)` -/
 def logicalTable : List (List Nat) := [{", ".join(lst(x) for x in log_tbl)}]
